@@ -3,9 +3,9 @@
 package gen
 
 import (
-	"strconv"
 	"math"
 	"os"
+	"strconv"
 	"strings"
 	"sync"
 
